@@ -63,8 +63,8 @@ Step ==
             /\ gen' = IF e.a = "Start" /\ e.returned /\ e.err = "" /\ e.phase = "start" THEN gen + 1 ELSE gen
             /\ UNCHANGED <<scen, issued, bad>>
        [] e.ev = "LLStopIssued" -> phase' = (IF phase = "active" THEN "stopping" ELSE phase) /\ UNCHANGED <<scen, gen, issued, bad>>
-       [] e.ev = "Crash" -> Report({"C11_no_crash"}) /\ UNCHANGED <<scen, phase, gen, issued, bad>>
-       [] e.ev = "Panic" -> Report({"C11_no_crash"}) /\ UNCHANGED <<scen, phase, gen, issued, bad>>
+       [] e.ev = "Crash" -> Report({"C11_no_crash", "C10_no_crash"}) /\ UNCHANGED <<scen, phase, gen, issued, bad>>
+       [] e.ev = "Panic" -> Report({"C11_no_crash", "C10_no_crash"}) /\ UNCHANGED <<scen, phase, gen, issued, bad>>
        [] e.ev = "LLEnd" ->
             /\ Report(Iff(~e.finalstop, "C10_stop_returns")
                       \cup Iff(e.finalstop /\ (~Quiet(e) \/ e.st # 0), "C10_workers_exit")
